@@ -1550,7 +1550,10 @@ def compile_try_expression(compiler, expr, root, body, catchers, orelse, finalbo
     else:
         finalbody = compiler._compile_branch(finalbody)
         finalbody += finalbody.expr_as_stmt()
-        finalbody = finalbody.stmts
+        # The forms of `finally` can compile to no statements at all, as in
+        # `(finally (do))`, but Python requires a non-empty `finally` when
+        # there are no `except` clauses.
+        finalbody = finalbody.stmts or [asty.Pass(expr)]
 
     expr_name = asty.Name(expr, id=return_var.id, ctx=ast.Load())
     returnable = Result(expr=expr_name, temp_variables=[expr_name, return_var])
